@@ -9,9 +9,10 @@
      row count fits, otherwise std chooses a new capacity >= the row count — amortised growth is a detail
      of std, the chosen capacity is an input of the model: `newcap`); `cb_clone` (Vec::clone allocates
      exactly len elements: the copy of a configured sequence has NO spare row);
-   * `cstate`/`cop`/`cstep`: the histories of FpHistory.v with the capacity of the sequence matrix, the
-     ops `clone` and `StripedSequence::new(DenseMatrix::new(rows), L)`; the footprint events of the scoring
-     kernels are emitted with the ALLOCATION of the sequence matrix as extent (`widen_seq`);
+   * `cstate`/`cop`/`cstep`/`cstates`: the histories of FpHistory.v with the capacity of the sequence matrix and of
+     both score matrices, the ops `clone` (sequence / scores) and `StripedSequence::new(DenseMatrix::new(rows), L)`;
+     every footprint event carries the extents of the ALLOCATIONS as they are at that step (`cev`, `ce_alloc`);
+     `cb_reserve`, `cb_resize_uninit(_seeded)`: the Vec-level content of seeded change C06/6;
    * `fp_score_u8_avx2_pipelined`: the software-pipelined variant of score_u8_avx2_shuffle of seeded change
      C06/5 (fetches sequence row i + M per scored row i, value unused) — the reason the check runs histories on
      exact allocations (FpCapProofs.v: it is inside the allocation exactly when a spare row exists).
